@@ -17,7 +17,7 @@ def canon_model(m):
 def library_half(ctx, binp):
     q = ctx.quick
     consts = {"OldSel": {0, 3, 6, 21} if not q else {0, 3, 6}, "NewSel": {0, 5, 3, 26, 31} if not q else {0, 5, 26},
-              "TextAlpha": {97, 12354, 28450}, "MaxText": 4 if not q else 3, "BadCounts": True}
+              "TextAlpha": {97, 12354, 28450}, "MaxText": 4 if not q else 3, "BadCounts": True, "NoCngSet": "{TRUE, FALSE}"}
     res = vlib.tlc("C19-gen-dictedit", "Gen_DictEdit", vlib.cfg_text(constants=consts, invariants=["DiffLaw", "Emit"]))
     if res["violated"]:
         raise vlib.ToolError("Gen_DictEdit: the score-difference law fails on the specification")
